@@ -280,15 +280,13 @@ Section BufferRefine.
   Proof.
     intros I Hk Hi. pose proof I as (Hc & Hl & He & Hn & Hs).
     unfold b_get. rewrite get_index_ok by assumption. cbn [rbind].
-    destruct (Z.ltb_spec i (ln b)).
-    - unfold slot_of, bget. destruct (knd b).
-      + rewrite cidx_cell by (apply slot_range; assumption). cbn [rbind].
-        rewrite babs_nth by lia. reflexivity.
-      + rewrite cidx_cell by (apply slot_range; assumption). cbn [rbind].
-        rewrite babs_rev_nth by lia. reflexivity.
-    - unfold bget. destruct (knd b).
-      + rewrite babs_nth_none by lia. reflexivity.
-      + rewrite babs_rev_nth_none by lia. reflexivity.
+    unfold bget. rewrite babs_len by lia.
+    destruct (Z.ltb_spec i (ln b)); [|reflexivity].
+    unfold slot_of. destruct (knd b).
+    - rewrite cidx_cell by (apply slot_range; assumption). cbn [rbind].
+      rewrite babs_nth by lia. reflexivity.
+    - rewrite cidx_cell by (apply slot_range; assumption). cbn [rbind].
+      rewrite babs_rev_nth by lia. reflexivity.
   Qed.
 
   (* -------------------------------------------------------------- observers *)
